@@ -488,6 +488,44 @@ func c15RealFiles(r *ev.Run) {
 							}
 						}
 					}
+					if c.legacy && format == 3 {
+						// the same file with schema format 2 in the header (SQLite before 3.40 leaves that after an ADD COLUMN
+						// without a default; DESC is ignored for every format below 4): same content expected
+						if raw, rerr := os.ReadFile(p); rerr == nil && len(raw) >= 100 {
+							p2 := p + ".format2"
+							binary.BigEndian.PutUint32(raw[44:48], 2)
+							art2 := map[string]interface{}{"case": c.name + " (header schema format set to 2)", "setup": c.setup, "schema_format": 2}
+							if werr2 := os.WriteFile(p2, raw, 0o644); werr2 != nil {
+								r.Harness("C15 %s: %v", c.name, werr2)
+							} else if e, eerr := OpenEnv(p2); eerr != nil {
+								r.Violation("C15:realfile-rejected:"+c.name+":format2", fmt.Sprintf("a schema-format-2 database is refused: %v", eerr), art2)
+							} else {
+								r.Eval(1)
+								r.Validated(1)
+								want, werr := LiteDump(l)
+								got, gerr := LittleDump(e.H, e.D)
+								if werr != nil {
+									r.Harness("C15 %s: oracle: %v", c.name, werr)
+								} else if gerr != nil {
+									r.Violation("C15:realfile-misread:"+c.name+":format2", fmt.Sprintf("schema-format-2 database: reading every table: %v", gerr), art2)
+								} else if got.String() != want.String() {
+									r.Violation("C15:realfile-misread:"+c.name+":format2", fmt.Sprintf("schema-format-2 database reads differently from SQLite: %s", DumpDiff(got, want)), art2)
+								}
+								if strings.Contains(c.setup, "TABLE w ") {
+									for _, k := range []string{"a", "b", "c", "d"} {
+										var got [][]interface{}
+										err4 := e.H.PKSelect("w", sqlittle.Key{k}, func(rw sqlittle.Row) { got = append(got, CopyRow(rw)) }, "k", "v")
+										r.Trans(1)
+										if err4 != nil || len(got) != 1 {
+											r.Violation("C15:realfile-misread:"+c.name+":format2", fmt.Sprintf("schema-format-2 database: PKSelect(w, %q): %d rows err=%v, SQLite finds the row", k, len(got), err4), art2)
+											break
+										}
+									}
+								}
+								e.H.Close()
+							}
+						}
+					}
 				}
 			}
 		}
